@@ -199,6 +199,23 @@ class MatrixExpression:
     def __rtruediv__(self, other: float | int) -> MatrixExpression:
         """Right scalar division: other / self."""
         rows, cols = self.shape
+        if isinstance(other, np.ndarray) and other.ndim > 0:
+            # array / matrix is element-wise, like array - matrix
+            if other.shape != (rows, cols):
+                raise DimensionMismatchError(
+                    operation="division",
+                    left_shape=other.shape,
+                    right_shape=(rows, cols),
+                )
+            return MatrixExpression(
+                [
+                    [
+                        BinaryOp(Constant(other[i, j]), self._expressions[i][j], "/")
+                        for j in range(cols)
+                    ]
+                    for i in range(rows)
+                ]
+            )
         const = Constant(other)
         result_exprs = [
             [BinaryOp(const, self._expressions[i][j], "/") for j in range(cols)]
@@ -982,6 +999,23 @@ class MatrixVariable:
     def __rtruediv__(self, other: float | int) -> MatrixExpression:
         """Right division: scalar / X."""
         rows, cols = self.shape
+        if isinstance(other, np.ndarray) and other.ndim > 0:
+            # array / matrix is element-wise, like array - matrix
+            if other.shape != (rows, cols):
+                raise DimensionMismatchError(
+                    operation="division",
+                    left_shape=other.shape,
+                    right_shape=(rows, cols),
+                )
+            return MatrixExpression(
+                [
+                    [
+                        BinaryOp(Constant(other[i, j]), self._variables[i][j], "/")
+                        for j in range(cols)
+                    ]
+                    for i in range(rows)
+                ]
+            )
         const = Constant(other)
         result_exprs = [
             [BinaryOp(const, self._variables[i][j], "/") for j in range(cols)]
